@@ -131,8 +131,13 @@ static int verif_fmt (char *out, size_t cap, int bounded, const char *fmt, va_li
     {
       if (fmt[i] != '%') { VPUT (fmt[i]); continue; }
       i++;
-      while (fmt[i] == 'l' || fmt[i] == 'z' || fmt[i] == 'h' || fmt[i] == '+') i++;
-      if (fmt[i] == 's') { const char *s = va_arg (ap, const char *); int k; if (!s) s = "(null)"; for (k = 0; s[k]; k++) VPUT (s[k]); }
+      {
+        int prec = -1;
+        if (fmt[i] == '.') { prec = 0; i++; while (fmt[i] >= '0' && fmt[i] <= '9') { prec = prec * 10 + (fmt[i] - '0'); i++; } }   /* %.250s */
+        while (fmt[i] == 'l' || fmt[i] == 'z' || fmt[i] == 'h' || fmt[i] == '+') i++;
+        if (fmt[i] == 's') { const char *s = va_arg (ap, const char *); int k; if (!s) s = "(null)"; for (k = 0; s[k] && (prec < 0 || k < prec); k++) VPUT (s[k]); continue; }
+      }
+      if (fmt[i] == 's') { }
       else if (fmt[i] == 'c') { int c = va_arg (ap, int); VPUT ((char) c); }
       else if (fmt[i] == '%') { VPUT ('%'); }
       else if (fmt[i] == 'd' || fmt[i] == 'i' || fmt[i] == 'u')
